@@ -9,10 +9,10 @@ def run(ctx):
     ctx.forbidden_scan()
     if not ctx.build_driver():
         return
-    if ctx.lake_each(["AvoVerif.Props.C01", "AvoVerif.Props.C01Tables"]):
+    if ctx.lake_each(["AvoVerif.Props.C01", "AvoVerif.Props.C01Tables", "AvoVerif.Props.C01Pipeline"]):
         ctx.audit("C01")
     if ctx.tier == "thorough":
-        ctx.leanchecker(["AvoVerif.Props.C01", "AvoVerif.Props.C01Tables"])
+        ctx.leanchecker(["AvoVerif.Props.C01", "AvoVerif.Props.C01Tables", "AvoVerif.Props.C01Pipeline"])
     nt = lambda req, resp: req.startswith("accept-alloc") and "=> ok 0" not in req and "=> err" not in req
     ctx.run_corpus("c01", nontrivial=nt)
     if ctx.replay:
